@@ -119,7 +119,9 @@ def op_lines(ops, emit, fs):
                 ex = "mk_%d(%s)" % (fs[k], arg)
             else:
                 ex = "new %s%s(%s)" % (cls, ("<%s>" % ", ".join(o[3])) if o[0] != "newraw" else "", arg)
-            out.append('try { $o%d = %s; %s } catch (Throwable $e) { %s }' % (var, ex, emit('"N"'), emit('"X"')))
+            # "Y": the error is the one about too few type arguments (an observable of its own), "X": any other
+            out.append('try { $o%d = %s; %s } catch (Throwable $e) { %s }' % (
+                var, ex, emit('"N"'), emit('(strpos($e->getMessage(), "\u7c7b\u578b\u5b9e\u53c2") !== false ? "Y" : "X")')))
         elif o[0] == "write":
             _, path, var, p, v = o
             if path == "direct":
@@ -234,6 +236,8 @@ def parse_obs(out):
             res.append("Created")
         elif line == "X":
             res.append("NewFailed")
+        elif line == "Y":
+            res.append("NewArity")
         elif line == "A":
             res.append("Accepted")
         elif line == "R":
@@ -258,7 +262,7 @@ def props_typed_by_param(cls):
     return [p for p, t in cls[2] if t in cls[1]]
 
 
-def probe_all(tbl_by_name, live, rot):
+def probe_all(tbl_by_name, live, rot, calls=True):
     """stores of every value kind into every parameter-typed member of every live instance
     (paths rotate), each followed by a read"""
     ops = []
@@ -270,7 +274,7 @@ def probe_all(tbl_by_name, live, rot):
                 ops.append(("write", PATHS[k % 3], var, p, v))
                 k += 1
             ops.append(("read", var, p))
-            for v in VALS:
+            for v in (VALS if calls else []):
                 if v[0] != "n":           # null into a typed parameter is the recorded finding: probed separately
                     ops.append(("call", var, p, v))
     return ops
@@ -293,7 +297,8 @@ def enumerated(tier):
                 ops.append(("write", PATHS[j % 3], j, "v", matching_value(arg)))
             elif w == 2:
                 ops.append(("write", PATHS[(j + 1) % 3], j, "v", other_value(arg)))
-        ops += probe_all(byn, live, len(events))
+        # quick tier: the 4096 histories of length 4 are probed with stores only (calls: lengths 1-3, enumc, seeded)
+        ops += probe_all(byn, live, len(events), calls=(tier != "quick" or len(events) < 4))
         return {"tbl": tbl, "ops": ops, "gen": "enum%d" % len(events)}
     for n in (1, 2, 3):
         for ev in itertools.product([(a, w) for a in ARGS for w in (0, 1, 2)], repeat=n):
@@ -603,8 +608,8 @@ def main(ck):
     for j, cls in sorted(bad.items(), key=lambda kv: len(cases[idx[kv[0]]]["ops"])):
         i = idx[j]
         c, o = cases[i], o_h[i]
-        pos_s = next((x - 1000 for x in cls if 1000 <= x < 2000), None)
-        pos_m = next((x - 2000 for x in cls if x >= 2000), None)
+        pos_m, pos_s = (cls[2] if cls[0] == 1 else None), (cls[3] if cls[1] == 2 else None)
+        cls = [x for x in cls[:2] if x]
         pos = pos_s if pos_s is not None else pos_m
         what = op_key(c["ops"][pos]) if pos is not None and pos < len(c["ops"]) else "length"
         conc = c.get("gen") == "conc"
